@@ -209,7 +209,7 @@ structure Codec where
   sizeExpr : Expr              -- calculateObjectSize()
   hdrSizeExpr : Expr           -- calculateHeaderSize()
   ctorType : Nat               -- ObjectType passed by the default constructor
-  deriving Repr, Inhabited
+  deriving Repr, Inhabited, DecidableEq
 
 /-- the object a default constructor produces (indeterminate members read as their `dflt`, which the
     translator sets to 0; determinacy is a separate obligation, C17) -/
